@@ -37,7 +37,8 @@ EXC_TYPES = ['KeyError', 'IndexError', 'ValueError', 'TypeError', 'TypeErrorArgu
 FLOORS = {
     'quick': dict({'events_checked': 4000, 'tagging_compared': 2500, 'failing_reached': 800, 'default_only_compared': 4000,
                    'declared_params_calls': 500, 'per_instance_compared': 4000, 'per_instance_mixed_named_and_default': 500, 'based_rule_events_both_declare_params': 20, 'fallback_name_calls': 1000, 'nomemo_retry_k3': 200, 'memo_replay_seen': 25,
-                   'gen_cases': 400, 'gen_reused_cases': 150, 'scalar_family_cases': 1200}, **{'exc_propagated:' + e: 60 for e in EXC_TYPES}),
+                   'gen_cases': 400, 'gen_reused_cases': 150, 'scalar_family_cases': 1200,
+                   'semantics_delivered_by:attribute': 8000, 'semantics_delivered_by:constructor': 1500}, **{'exc_propagated:' + e: 60 for e in EXC_TYPES}),
     'thorough': {'events_checked': 100000, 'tagging_compared': 60000, 'failing_reached': 20000},
 }
 N = {'quick': 2400, 'thorough': 64000}
@@ -116,8 +117,29 @@ class Backend:
         self.model = L.to_model(g, name='T')
         self.cls = gen_parser(self.model)[0] if kind != 'model' else None
         self.obj = None
+        self.calls = 0
+        self.delivery = collections.Counter()
 
     def parse(self, text, **kw):
+        # how the semantics object reaches the parser: the semantics= argument of parse(), or (every third call) the other
+        # documented ways - assigning model.semantics on a model that has already parsed, the constructor of a generated
+        # parser.  The object in force for THIS parse must be the one delivered last.
+        self.calls += 1
+        sem = kw.get('semantics')
+        if self.calls % 3 == 0 and sem is not None:
+            if self.kind == 'model':
+                kw.pop('semantics')
+                self.delivery['attribute'] += 1
+                self.model.semantics = sem
+                try:
+                    return self.model.parse(text, **kw)
+                finally:
+                    self.model.semantics = None
+            if self.kind == 'gen':
+                kw.pop('semantics')
+                self.delivery['constructor'] += 1
+                return self.cls(semantics=sem).parse(text, **kw)
+        self.delivery['argument'] += 1
         if self.kind == 'model':
             return self.model.parse(text, **kw)
         if self.kind == 'gen-reused':
@@ -540,6 +562,8 @@ def run_shard(desc, acc):
                 check_default_only(acc, be, g, text, res[2].events)
                 check_per_instance(acc, be, g, text, rng, res[2].events)
             check_declared(acc, be, g, text, rng)
+        for k, v in be.delivery.items():
+            acc.count('semantics_delivered_by:' + k, v)
         check_nomemo(acc, rng, kind)
         check_scalars(acc, rng, kind)
         if i == 0:
